@@ -218,4 +218,24 @@ pub const HPKE_RFC: u32 = 9180;
         let total = msg_len + tag_len;
         let mut buf = vec![0u8; total];
         buf[..msg_len].copy_from_slice(plaintext);""")]),
+    dict(name='b-seal-to-vec-extend', props=['C01', 'C04', 'C06', 'C13', 'C14'],
+         edits=[(AEAD, """        let msg_len = plaintext.len();
+        let tag_len = AeadTag::<A>::size();
+
+        // Make a buffer that can hold a ciphertext + tag. Copy in the plaintext
+        let mut buf = vec![0u8; msg_len + tag_len];
+        buf[..msg_len].copy_from_slice(plaintext);
+
+        // Seal with a detached tag
+        let tag = self.seal_in_place_detached(&mut buf[..plaintext.len()], aad)?;
+        // Then append the tag to the end of the buffer. The buffer is now the auth'd ciphertext
+        buf[msg_len..msg_len + tag_len].copy_from_slice(&tag.0);
+
+        Ok(buf)""", """        let mut buf = plaintext.to_vec();
+        // Seal with a detached tag
+        let tag = self.seal_in_place_detached(&mut buf, aad)?;
+        // Then append the tag to the end of the buffer. The buffer is now the auth'd ciphertext
+        buf.extend_from_slice(&tag.0);
+
+        Ok(buf)""")]),
 ]
